@@ -423,7 +423,7 @@ func (p *Prog) Variant(level int) *Prog {
 			all = append(all, SSAPkgFuncs(prog, sp)...)
 		}
 	}
-	type use struct{ calls, other int }
+	type use struct{ calls, other, bound int }
 	uses := map[*ssa.Function]*use{}
 	get := func(f *ssa.Function) *use {
 		u := uses[f]
@@ -458,6 +458,7 @@ func (p *Prog) Variant(level int) *Prog {
 							if tf, ok := fv.Object().(*types.Func); ok {
 								if t := prog.FuncValue(tf); t != nil {
 									get(t).other++
+									get(t).bound++
 								}
 							}
 						}
@@ -467,6 +468,7 @@ func (p *Prog) Variant(level int) *Prog {
 							if tf, ok := w.Object().(*types.Func); ok {
 								if t := prog.FuncValue(tf); t != nil {
 									get(t).other++
+									get(t).bound++ // `x.m` as a function value: variant 2 inlines m into the wrapper
 								}
 							}
 						}
@@ -498,7 +500,14 @@ func (p *Prog) Variant(level int) *Prog {
 			return false
 		}
 		u := uses[f]
-		if u == nil || u.other > 0 || u.calls == 0 {
+		if u == nil || u.calls == 0 {
+			return false
+		}
+		other := u.other
+		if level >= 2 {
+			other -= u.bound
+		}
+		if other > 0 {
 			return false
 		}
 		switch level {
@@ -581,7 +590,7 @@ func (p *Prog) Variant(level int) *Prog {
 		// A struct of a new unexported type that is only ever accessed field by field (its methods were
 		// new helpers and are inlined by now) is split into its fields: locals moved into a struct, and
 		// closures turned into methods of it, get back the shape of locals captured by closures.
-		sites := map[*ssa.Function]int{}
+		sites := map[*ssa.Function][]*ssa.MakeClosure{}
 		seenFn := map[*ssa.Function]bool{}
 		var scan func(f *ssa.Function)
 		scan = func(f *ssa.Function) {
@@ -593,7 +602,7 @@ func (p *Prog) Variant(level int) *Prog {
 				for _, in := range b.Instrs {
 					if mc, ok := in.(*ssa.MakeClosure); ok {
 						if k, ok := mc.Fn.(*ssa.Function); ok {
-							sites[k]++
+							sites[k] = append(sites[k], mc)
 							if k.Parent() == nil { // bound-method wrapper: not among the package's functions
 								wrappers = append(wrappers, k)
 								scan(k)
@@ -609,12 +618,55 @@ func (p *Prog) Variant(level int) *Prog {
 			}
 		}
 		split := 0
-		for _, f := range append(append([]*ssa.Function(nil), all...), wrappers...) {
+		live := append(append([]*ssa.Function(nil), all...), wrappers...)
+		// small immutable struct values of new types passed by value (value receivers, by-value
+		// capture): the copies are elided first, what is left is one allocation read field by field
+		for _, f := range live {
+			if !v.Hidden[f] {
+				ssa.ElideStructCopies(f, isNewType, sites)
+			}
+		}
+		for _, f := range live {
 			if !v.Hidden[f] {
 				split += ssa.ScalarReplaceStructs(f, isNewType, sites)
 			}
 		}
 		v.Split = split
+	}
+	// closures that no live function creates any more are dead code (the closure-ized `defer h()`
+	// inside a helper that was inlined everywhere: every inlined copy has its own): hide them too
+	liveFn := map[*ssa.Function]bool{}
+	var mark func(f *ssa.Function)
+	mark = func(f *ssa.Function) {
+		if f == nil || liveFn[f] || f.Blocks == nil {
+			return
+		}
+		liveFn[f] = true
+		for _, b := range f.Blocks {
+			for _, in := range b.Instrs {
+				for _, op := range in.Operands(nil) {
+					if g, ok := (*op).(*ssa.Function); ok {
+						mark(g)
+					}
+				}
+			}
+		}
+	}
+	for _, f := range all {
+		if f.Parent() == nil && !v.Hidden[f] {
+			mark(f)
+		}
+	}
+	for _, f := range all {
+		if f.Parent() != nil && !liveFn[f] {
+			// only closures whose lexical ancestors include a hidden helper can have lost their creator
+			for a := f.Parent(); a != nil; a = a.Parent() {
+				if v.Hidden[a] {
+					v.Hidden[f] = true
+					break
+				}
+			}
+		}
 	}
 	sort.Strings(v.Inlined)
 	return v
